@@ -115,7 +115,9 @@ Definition tree_match_prefix (strs : list bytes) (seen : bytes) : bool := pt_mat
 (* oracle for the direct tree stream: per input, (prefix-mode answer, exact-mode answer) *)
 Definition ok_ptree (strs : list bytes) (inputs : list bytes) (obs : list (bool * bool)) : bool :=
   Nat.eqb (length inputs) (length obs) &&
-  forallb (fun io => Bool.eqb (fst (snd io)) (is_nil strs || any_prefix strs (fst io)))
+  forallb (fun io => Bool.eqb (fst (snd io)) (is_nil strs || any_prefix strs (fst io))
+                     && Bool.eqb (snd (snd io))
+                                 (if is_nil strs then is_nil (fst io) else any_equal strs (fst io)))
           (combine inputs obs).
 
 Definition run_ptree (strs : list bytes) (inputs : list bytes) : list (bool * bool) :=
